@@ -19,6 +19,8 @@ pub enum FileCase {
     /// generated: n chromosomes (names sort in input order) with 1-3 items each
     WigMany { n: u32, opts: Opts },
     BedMany { n: u32, opts: Opts },
+    /// bigwiginfo / bigbedinfo on an encoder-written file (C06 tool part)
+    Info(crate::clifam::InfoTool),
 }
 
 pub fn expand(c: &FileCase) -> FileCase {
@@ -883,10 +885,15 @@ impl Check for C06 {
                 })
             })
         });
-        Box::new(m.chain(w).chain(b))
+        let tools = crate::clifam::info_tool_cases().into_iter().map(FileCase::Info);
+        Box::new(m.chain(w).chain(b).chain(tools))
     }
     fn run(&self, case: &FileCase, out: &mut Outcome) {
         match expand(case) {
+            FileCase::Info(t) => {
+                out.nontrivial = true;
+                crate::clifam::c06_tool(&t, out);
+            }
             FileCase::Wig(c) => {
                 let Some(bytes) = do_write_wig(&c, out) else { return };
                 structure(&bytes, c.chroms.len(), out);
